@@ -138,4 +138,43 @@ Section ShufflingImpl.
     if N.of_nat (length active) =? 0 then Err else
     ok_all (map (fun i => compute_proposer_index_impl vals active (Hash E (epoch_seed ++ le8 (add64 start_slot i))))
                 (seqN 0 (N.to_nat (SLOTS_PER_EPOCH c)))).
+  (* ---------------- sync_committee.go ---------------- *)
+  (* ComputeSyncCommitteeIndices(spec, state, baseEpoch, active), the sampling loop (seed = GetSeed(.., DOMAIN_SYNC_COMMITTEE)):
+       i := 0 ; var h [32]byte
+       for len(out) < SYNC_COMMITTEE_SIZE {
+         shuffledIndex := PermuteIndex(uint8(SHUFFLE_ROUND_COUNT), i % len(active), len(active), seed)
+         candidateIndex := active[shuffledIndex] ; effectiveBalance of vals.Validator(candidateIndex)
+         if i%32 == 0 { h = hash(seed ++ le8(i/32)) }             (the hash is CACHED for 32 candidates)
+         randomByte := h[i%32]
+         if effectiveBalance*0xff >= MAX_EFFECTIVE_BALANCE*randomByte { out = append(out, candidateIndex) }
+         i += 1 }
+     The Go loop has no iteration cap; `fuel` is the model's (OutOfFuel = "has not returned yet").
+     Not modelled: the baseEpoch > epoch+1 guard (the seed is a parameter here). *)
+  Fixpoint sync_indices_loop (fuel : nat) (vals : list Validator) (active : list N) (seed h : bytes) (i : N)
+           (acc : list N) (size : N) : outcome (list N) :=
+    match fuel with
+    | O => if N.of_nat (length acc) <? size then OutOfFuel else Ok acc
+    | S k =>
+        if N.of_nat (length acc) <? size then
+          let total := N.of_nat (length active) in
+          bind (ShuffleModel.permute_index (Hash E) seed (ShuffleModel.wrap8 (SHUFFLE_ROUND_COUNT c)) (i mod total) total) (fun sh =>
+            match nth_error active (N.to_nat sh) with
+            | None => Panic IndexOOR
+            | Some cand =>
+                match nthN vals cand with
+                | None => Err
+                | Some v =>
+                    let h' := if i mod 32 =? 0 then Hash E (seed ++ le8 (i / 32)) else h in
+                    let random_byte := nth (N.to_nat (i mod 32)) h' 0 in
+                    let acc' := if mul64 (MAX_EFFECTIVE_BALANCE c) random_byte <=? mul64 (v_effective_balance v) 255
+                                then acc ++ [cand] else acc in
+                    sync_indices_loop k vals active seed h' (add64 i 1) acc' size
+                end
+            end)
+        else Ok acc
+    end.
+  Definition compute_sync_committee_indices_impl (fuel : nat) (vals : list Validator) (active : list N) (seed : bytes)
+    : outcome (list N) :=
+    if N.of_nat (length active) =? 0 then Err
+    else sync_indices_loop fuel vals active seed (repeat 0 32) 0 [] (SYNC_COMMITTEE_SIZE c).
 End ShufflingImpl.
